@@ -141,8 +141,18 @@ def _alias(v, memo):
     return out
 
 
+KEPT_ITERATORS = []
+
+
 def apply_call(obj, name, args):
     """Perform the public call on the real (or built-in) object and return the raw result."""
+    if name in ("diternext", "liternext"):
+        # an iterator that is advanced once and then KEPT (a stored zip, a loop left by an
+        # exception): whatever it holds on to stays held
+        it = iter(obj)
+        r = next(it, None)
+        KEPT_ITERATORS.append(it)
+        return r
     if name in _VALUE_OPS:
         import zlib
         try:
